@@ -304,10 +304,13 @@ def run(chk: Check) -> None:
             what = "leftover_cancelling"
         elif ext < INF and evs[-1]["exc"] == "" and failing is not None:
             what = "external_cancel_lost"
+        # the external cancellation reached the task at the very instant a scope caught its own cancellation
+        tie = ext < INF and any(e["ev"] == "exit" and e["caught"] and e["t"] == ext for e in evs)
         sig = {
             "kind": "trace",
             "spec": "CancelScope",
             "what": what,
+            "tie": bool(tie),
             "external_cancel": ext < INF,
             "shield": "shield" in feats,
             "scope_in_shield": "scope_in_shield" in feats,
